@@ -1,5 +1,5 @@
 """C06 — normalisation: one routine on every route, freed tail cleared, run limit agreed by all implementations."""
-from ..rules import tail, convert, normal, fields, eqord, casts, parser, features, summary, beliefs
+from ..rules import tail, convert, normal, fields, eqord, casts, parser, features, summary, beliefs, data
 
 EXPL = ("Decides: SA-TAIL: the in-place normaliser stores the new length and clears [new length, previous length) (value-equal start "
         "by linear normal form; the previous length is read before any store), the dual compressor clears from the stored length to the "
@@ -27,6 +27,7 @@ def run(ctx):
             ctx.guard("C06", "twins", lambda: features.twins(ctx, prog, scope='FuzzyHashData::<[^>]*>::(new|init)_from_internals|FuzzyHashDualData', floor=2))
         ctx.guard("C06", "casts", lambda: casts.census(ctx, prog, scope='hash::algorithms::normalize_|FuzzyHashData.*::normaliz', floor=1))
         ctx.guard("C06", "writers", lambda: tail.classify_writers(ctx, prog, scope=r"(normalize|from_raw_form|init_from_raw_form|hash_dual::algorithms::compress|core::convert::From<internals::hash::FuzzyHashData<S1, S2, false>>)", floor=3))
+        ctx.guard("C06", "const values", lambda: data.const_census(ctx, prog, data.CONST_SCOPES["C06"], floor=1))
         ctx.guard("C06", "summaries", lambda: summary.check(ctx, prog, '::normalize|::is_normalized|::clone_normalized|verify_block_hash', floor=2))
         ctx.guard("C06", "path summaries", lambda: summary.check_paths(ctx, prog, '::normalize|::is_normalized|::clone_normalized|verify_block_hash', floor=2))
         if c in ("dbg", "unsafe_dbg", "strict_dbg"):
